@@ -61,8 +61,14 @@ def perturb(rng, name, base, k):
     out = out / np.where(nrm == 0, 1, nrm)
   elif name in ("gravity", "wind", "magnetic", "qpos0", "qpos_spring", "body_pos", "geom_pos", "site_pos", "jnt_pos", "cam_pos", "light_pos"):
     out = b + 0.02 * rng.standard_normal(b.shape)
+  elif "margin" in name or name.endswith("_gap"):
+    # additive and large enough to switch contacts on/off in the near-contact scene
+    out = b + np.array([0.0, 0.04, 0.15])[:k].reshape((k,) + (1,) * (b.ndim - 1)) * (1.0 if "margin" in name else 0.2)
   else:
     out = b * noise
+    zero = np.abs(b) < 1e-12
+    if zero.all() and not name.endswith(("range", "id", "adr")):
+      out = out + zero * 0.05 * np.abs(rng.standard_normal(b.shape))  # a field that is all zero gets additive noise
   out[0] = base[0]
   return out.astype(np.float32)
 
@@ -122,6 +128,82 @@ def experiment(res, nfields, nsteps):
   return fails
 
 
+COLL_XML = """
+<mujoco><option timestep="0.002"/>
+  <worldbody>
+    <geom name="floor" type="plane" size="3 3 .1"/>
+    <body pos="0 0 0.13"><freejoint/><geom name="s0" type="sphere" size="0.1"/></body>
+    <body pos="0.26 0 0.12"><freejoint/><geom name="b0" type="box" size="0.1 0.08 0.09"/></body>
+    <body pos="-0.3 0.02 0.1" euler="0 90 0"><freejoint/><geom name="c0" type="capsule" size="0.05 0.1"/></body>
+    <body pos="0 0.3 0.16"><freejoint/><geom name="e0" type="ellipsoid" size="0.1 0.07 0.05"/></body>
+    <body pos="0.02 -0.27 0.14"><freejoint/><geom name="y0" type="cylinder" size="0.06 0.08"/></body>
+    <body pos="0.3 0.3 0.2"><freejoint/><geom name="s1" type="sphere" size="0.08"/></body>
+    <body pos="0.3 0.31 0.41"><freejoint/><geom name="b1" type="box" size="0.07 0.07 0.07"/></body>
+  </worldbody>
+  <contact><pair geom1="s0" geom2="e0" margin="0.02" gap="0.001"/><pair geom1="s1" geom2="b0"/></contact>
+</mujoco>"""
+
+
+def contacts_of(dd, w):
+  n = int(dd.nacon.numpy()[0])
+  wid = dd.contact.worldid.numpy()[:n]
+  sel = np.nonzero(wid == w)[0]
+  g = dd.contact.geom.numpy()[:n][sel]
+  rows = [tuple(int(x) for x in g[i]) + (float(dd.contact.dist.numpy()[sel[i]]).hex(),) + tuple(float(x).hex() for x in dd.contact.pos.numpy()[sel[i]]) for i in range(len(sel))]
+  return sorted(rows)
+
+
+def collision_experiment(res, quick):
+  """Per-world geom_* / pair_* parameters under every broadphase and filter mask: world w of the batched
+  model vs the same world of a model holding only row w (same batch size, bit-exact contacts and outputs)."""
+  import mujoco
+  import warp as wp
+
+  import batchkit as BK
+  import mujoco_warp as mjw
+  from mujoco_warp._src import types
+
+  rng = np.random.default_rng(vlib.seed() + 110)
+  m = mujoco.MjModel.from_xml_string(COLL_XML)
+  d0 = mujoco.MjData(m)
+  mujoco.mj_forward(m, d0)
+  mm0 = mjw.put_model(m)
+  K = 3
+  fields = [(k, n) for k, n in batch_fields() if k == "m" and (n.startswith("geom_") or n.startswith("pair_"))]
+  fails = []
+  masks = [int(mm0.opt.broadphase_filter), 15] if quick else [int(mm0.opt.broadphase_filter), 15, 1, 2, 4, 8, 0]
+  for bp in (types.BroadphaseType.NXN, types.BroadphaseType.SAP_TILE, types.BroadphaseType.SAP_SEGMENTED):
+    for mask in masks:
+      mm = with_field(with_field(mm0, "opt", "broadphase", bp), "opt", "broadphase_filter", mask)
+
+      def run(model):
+        dd = mjw.put_data(m, d0, nworld=K, nconmax=64, njmax=256)
+        mjw.step(model, dd)
+        mjw.forward(model, dd)
+        return dd
+
+      for key, name in fields:
+        arr = get_field(mm, key, name)
+        base = arr.numpy()
+        if base.shape[0] != 1 or base.size == 0 or base.dtype.kind != "f":
+          continue
+        rows = perturb(rng, name, base, K)
+        full = run(with_field(mm, key, name, wp.array(rows, dtype=arr.dtype)))
+        snaps = [(BK.snapshot(full, w), contacts_of(full, w)) for w in range(K)]
+        if any(snaps[w][1] != snaps[0][1] or BK.first_diff(snaps[0][0], snaps[w][0]) is not None for w in range(1, K)):
+          res.nontrivial(f"{name}@{bp.name}/{mask}")
+        for w in range(1, K):
+          one = run(with_field(mm, key, name, wp.array(rows[w : w + 1], dtype=arr.dtype)))
+          res.count()
+          df = BK.first_diff(snaps[w][0], BK.snapshot(one, w))
+          cd = snaps[w][1] != contacts_of(one, w)
+          if df is not None or cd:
+            fails.append({"field": f"m.{name}", "world": w, "broadphase": bp.name, "filter": mask, "contacts_batched": len(snaps[w][1]), "contacts_single": len(contacts_of(one, w)),
+                          "differs_in": df[0] if df else "contact set", "rows": rows.reshape(K, -1)[:, :8].tolist(), "xml": COLL_XML})
+            break
+  return fails
+
+
 FLEX_XML = """
 <mujoco><worldbody>
   <flexcomp name="tet1" type="direct" dim="3" radius="0.01" mass="0.5" point="0 0 0  0.1 0 0  0 0.1 0  0 0 0.1" element="0 1 2 3">
@@ -171,9 +253,13 @@ def run(res):
   quick = res.tier == "quick"
   res.rule = "per-field experiment on a feature-rich model: each batchable float field gets 3 distinct rows; world i of the batched model vs the same world of a model holding only row i (same batch size, bit-exact on state and outputs after steps); distinct_nontrivial = fields whose perturbation visibly changed the outputs"
   ok, trs, failing = propkit.prove(res, "Props/C10.v", gen_names=["Skel_access"])
-  fails = experiment(res, 30 if quick else 10**6, 2 if quick else 5)
+  fails = experiment(res, 10**6, 2 if quick else 5)
   for f in fails[:5]:
     res.violation(f"C10:batched-field:{f['field']}", f"batched {f['field']}: world {f['world']} differs from the unbatched model in {f['differs_in']} (max diff {f['maxdiff']:.3g})", f)
+  cfails = collision_experiment(res, quick)
+  for f in cfails[:5]:
+    res.violation(f"C10:batched-field:{f['field']}:{f['broadphase']}", f"batched {f['field']} under broadphase {f['broadphase']} filter {f['filter']}: world {f['world']} differs from the model holding only its row in {f['differs_in']} ({f['contacts_batched']} vs {f['contacts_single']} contacts)", f)
+  fails = fails + cfails
   flex_ccd_tolerance_finding(res)
   if not ok and not fails:
     import props.C09 as C09
